@@ -8,6 +8,7 @@ import (
 	"testing"
 	"time"
 
+	"github.com/dgraph-io/badger/v4"
 	"pgregory.net/rapid"
 
 	kit "github.com/mimiro-io/datahub/internal/verifkit"
@@ -219,7 +220,18 @@ func failCase(t rapidT, ops []Op, pl *pointHit, format string, a ...any) {
 // admissible models; then checks raw index consistency and that the hub
 // accepts new writes with fresh ids and increasing change positions.
 func verifyCrashed(dir string, ops []Op, acked int) string {
-	h := NewWHub(kit.HubOpts{Dir: dir})
+	if kit.Known("F27") && hasEmptyMemtableFile(dir) {
+		// known finding F27 (input shape: the killed process left an empty memtable file): the first
+		// start fails and sizes the file; carry on with the start after it
+		kit.S().Exclude("F27")
+		if h0, msg := openCrashed(dir); msg == "" {
+			_ = h0.Store.Close()
+		}
+	}
+	h, openErr := openCrashed(dir)
+	if openErr != "" {
+		return openErr
+	}
 	defer func() { _ = h.Store.Close() }()
 	candA := modelAfter(ops, acked+1)
 	msgA := crashOracle(h, candA)
@@ -337,4 +349,73 @@ func TestVerifProbe_F06(t *testing.T) {
 		t.Fatalf("no delete.* hook point was hit")
 	}
 	execPlans(t, root, ops, plans, false)
+}
+
+func hasEmptyMemtableFile(dir string) bool {
+	mems, _ := filepath.Glob(filepath.Join(dir, "store", "*.mem"))
+	for _, m := range mems {
+		if fi, err := os.Stat(m); err == nil && fi.Size() == 0 {
+			return true
+		}
+	}
+	return false
+}
+
+// openCrashed reopens a hub on a directory a killed process left behind. The
+// hub logs and ignores a failed badger.Open and then dereferences the nil
+// handle, so a store that does not open shows as a panic here; the badger
+// error is fetched with a direct Open for the report.
+func openCrashed(dir string) (h *WHub, msg string) {
+	defer func() {
+		if r := recover(); r != nil {
+			berr := "badger opens the directory when tried directly"
+			opts := badger.DefaultOptions(filepath.Join(dir, "store"))
+			opts.Logger = nil
+			if db, err := badger.Open(opts); err != nil {
+				berr = "badger.Open: " + err.Error()
+			} else {
+				_ = db.Close()
+			}
+			var names []string
+			if es, err := os.ReadDir(filepath.Join(dir, "store")); err == nil {
+				for _, e := range es {
+					if fi, err := e.Info(); err == nil {
+						names = append(names, fmt.Sprintf("%s(%d)", e.Name(), fi.Size()))
+					}
+				}
+			}
+			h, msg = nil, fmt.Sprintf("STORE-DOES-NOT-OPEN after the kill: %v\n  %s\n  files: %v", r, berr, names)
+		}
+	}()
+	return NewWHub(kit.HubOpts{Dir: dir}), ""
+}
+
+// F27 (known): a kill at the instant at which badger has created the file of a
+// new memtable but not yet sized it leaves an empty <n>.mem behind. badger
+// v4.2.0 reports "while opening memtables ... Create a new file" for it on the
+// next Open (and sizes the file while doing so, so the Open after that works).
+// The hub logs the failed Open, carries on with a nil database handle and
+// panics: the first restart after such a kill fails. The probe constructs the
+// file state directly.
+func TestVerifProbe_F27(t *testing.T) {
+	defer kit.CleanupScratch()
+	dir := kit.NewDir("probeF27")
+	h := NewWHub(kit.HubOpts{Dir: dir})
+	if _, err := h.Dsm.CreateDataset("a", nil); err != nil {
+		t.Fatalf("VERIF-INFRA %v", err)
+	}
+	_ = h.Store.Close()
+	// what the killed process leaves: the next memtable file, created and still empty
+	mems, _ := filepath.Glob(filepath.Join(dir, "store", "*.mem"))
+	if len(mems) != 0 {
+		t.Fatalf("VERIF-INFRA a cleanly closed store still has memtable files: %v", mems)
+	}
+	if err := os.WriteFile(filepath.Join(dir, "store", "00001.mem"), nil, 0o644); err != nil {
+		t.Fatalf("VERIF-INFRA %v", err)
+	}
+	h2, msg := openCrashed(dir)
+	if msg != "" {
+		t.Fatalf("F27 present: %s", msg)
+	}
+	_ = h2.Store.Close()
 }
